@@ -391,7 +391,7 @@ def samp_c(repo: Repo) -> List[Ob]:
     n_sets = 0
     for fi in repo.scan_functions():
         m = fi.module.name
-        if not (".state." in m or m.endswith("einsum_constructor")):
+        if not (".state." in m or m.startswith("photon_weave.extra.einsum_")):
             continue
         set_names = set()
         parents = {}
